@@ -180,6 +180,22 @@ pub fn run(rep: &Report) -> serde_json::Value {
     let cx = Ctx { rep, seen: Mutex::new(HashSet::new()) };
     let thorough = rep.thorough();
     let l1 = leaves_full(thorough);
+    // every leaf under a distribution header, alone and as control + payload with its neighbour (terms that name no atom at
+    // all included: the header then has no references and no flag bytes)
+    for (i, t) in l1.iter().enumerate() {
+        if oversize(t) { continue; }
+        let u = &l1[(i + 1) % l1.len()];
+        for multi in [false, true] {
+            if multi && oversize(u) { continue; }
+            rep.add("evaluations", 1);
+            let enc = if multi { erltf::encode_with_dist_header_multi(&[t, u]) } else { erltf::encode_with_dist_header(t) };
+            let bytes = match enc { Ok(b) => b, Err(e) => { rep.violation("encode failed for an expressible term", json!({"family": "distribution header leaf", "term": denote(t).short(), "error": e.to_string()})); continue; } };
+            let mut rx = vcore::proto::RxCache::default();
+            let ok = vcore::proto::read_dist_header_msg(&bytes, &mut rx).map(|m| exact_eq(&m.control, &denote(t)) && match (&m.payload, multi) { (Some(p), true) => exact_eq(p, &denote(u)), (None, false) => true, _ => false }).unwrap_or(false);
+            let own = { let mut c = erltf::AtomCache::new(); erltf::decode_with_atom_cache(&bytes, &mut c).map(|(c, _)| exact_eq(&denote(&c), &denote(t))).unwrap_or(false) };
+            if !ok || !own { rep.violation("independent reader sees a different value", json!({"family": "distribution header leaf", "term": denote(t).short(), "with_payload": multi, "independent_reader_ok": ok, "own_decoder_ok": own, "first_bytes": hex(bytes.get(..bytes.len().min(24)).unwrap_or(&[]))})); }
+        }
+    }
     let small = leaves_small();
     let mut fam = serde_json::Map::new();
 
